@@ -35,10 +35,10 @@
   time, a transfer-matrix inequality with an explicit potential — that every selection of plaquettes leaves at
   least `L` sites evenly covered (`color666_even_cover`).
 
-  STATED, NOT PROVED:
-  * `normaliser_complete` (F6(b)): for `S` of rank `n − k` and `2k` logicals with the canonical commutation
-    relations, `NormaliserComplete n S L`.  It is used as a hypothesis in `isDistanceSpan_of_isDistance`; the
-    other direction (`cert_not_in_span`) is proved.
+  STATED, NOT PROVED: nothing.  `normaliser_complete` (F6(b)) — for `S` of rank `n − k` and `2k` logicals with the
+    canonical commutation relations, `NormaliserComplete n S L` — is the hypothesis `hcomp` of
+    `isDistanceSpan_of_isDistance` in this file; it is proved in Lemmas/NormaliserBridge.lean / Props/C07/Normaliser.lean
+    and discharged for every family in Props/C08/Span.lean (`*_isDistanceSpan`).
 -/
 import QecVerif.Lemmas.Distance
 import QecVerif.Lemmas.DistanceWeights
